@@ -116,7 +116,8 @@ fn last8_variants() -> Vec<[u8; 8]> {
         a[4..].copy_from_slice(&s.to_le_bytes());
         a
     };
-    vec![mk(0, 8), mk(1, 8), mk(0, 0), mk(0, 7), mk(0, 9), mk(0, 16), mk(0x100, 8), mk(0, 0x108)]
+    // (index 0 is the valid end tag; the first four are used by the coarser sweeps)
+    vec![mk(0, 8), mk(1, 8), mk(0, 0), mk(0, 7), mk(0, 9), mk(0, 16), mk(0x100, 8), mk(0, 0x108), mk(0x1_0000, 8), mk(0x8000_0000, 8), mk(0xFFFF_0000, 8), mk(0, 0x1_0008), mk(0, 0x8000_0008)]
 }
 
 fn strategy(_: &Ctx) -> BoxedStrategy<Case> {
@@ -262,8 +263,69 @@ fn strategy_huge(_: &Ctx) -> BoxedStrategy<HugeCase> {
         .boxed()
 }
 
+// --- regions whose interior is a (well-formed or broken) tag chain ---------------------
+
+#[derive(Clone, Debug, Serialize, Deserialize)]
+pub struct ChainCase {
+    pub region: Hex,
+}
+
+/// Acceptance depends on the header and the last 8 bytes only - whatever the
+/// tags in between look like (e.g. a tag that reaches exactly to the end and
+/// contains the end-tag-looking bytes in its payload).
+fn eval_chain(c: &ChainCase, obs: &mut Obs) -> Result<(), String> {
+    let bytes = &c.region.0;
+    if bytes.len() < 8 || bytes.len() != r8(le32(bytes, 0) as usize).max(8) {
+        return Err("malformed case".into());
+    }
+    let want = predict_mbi_load(bytes);
+    let a = Aligned::new(bytes);
+    let got = load_transcript(a.as_ptr());
+    let w = if want == MbiLoad::Ok { Some(walk_mbi(bytes)) } else { None };
+    let swallowed = w.as_ref().map_or(false, |w| w.items.last().map_or(false, |i| i.typ != 0 || i.size != 8 || i.off + 8 != bytes.len()));
+    obs.class(format!("expect:{}", want.text()));
+    if swallowed {
+        obs.class("!end-tag-bytes-inside-another-tag");
+    }
+    if want != MbiLoad::Ok || swallowed {
+        obs.nontrivial(fnv(bytes));
+        obs.sample(json!({"region": sample_bytes(bytes), "expected": want.text(), "end_tag_bytes_inside_another_tag": swallowed}));
+    }
+    let ok = match (want, got.get("load")) {
+        (MbiLoad::Ok, Some(Val::Txt(s))) => s == "Ok" && got.get("mbi.total") == Some(&Val::U(bytes.len() as u64)),
+        (w, Some(Val::Err(e))) => e == w.text(),
+        _ => false,
+    };
+    if ok {
+        Ok(())
+    } else {
+        Err(format!("region {}: expected {}, got {}", hex(&bytes[..bytes.len().min(64)]), want.text(), got.render().replace('\n', " ")))
+    }
+}
+
+fn enumerate_chain(ctx: &Ctx) -> Box<dyn Iterator<Item = ChainCase>> {
+    // every small walk of C03 (DFS over the size words; includes tags that reach
+    // exactly to the end of the region and tags that overrun it)
+    Box::new(super::c03::enumerate_regions(ctx).map(|region| ChainCase { region }))
+}
+
+fn strategy_chain(_: &Ctx) -> BoxedStrategy<ChainCase> {
+    crate::gen::mbi_spec(10, 2).prop_map(|s| ChainCase { region: Hex(crate::gen::build_mbi(&s)) }).boxed()
+}
+
 pub fn subs() -> Vec<Box<dyn Sub>> {
-    vec![Box::new(PropSub::<HugeCase> {
+    vec![Box::new(PropSub::<ChainCase> {
+        name: "load-chains",
+        rule: "regions whose interior is a tag chain: every region of C03's exhaustive small-walk enumeration (incl. a last tag that reaches exactly to the end and so contains the end-tag bytes) and generated adversarial regions (tampered sizes, missing / invalid end tags, tampered total size). Oracle: the statement's decision table, which looks at the header and the last 8 bytes only. Non-trivial = load must fail, or the end-tag bytes lie inside another tag; distinct by region hash",
+        profiles: Profiles::Both,
+        quick: 8000,
+        thorough: 300000,
+        strategy: strategy_chain,
+        enumerate: Some(enumerate_chain),
+        enum_exhaustive: false,
+        eval: eval_chain,
+    }),
+    Box::new(PropSub::<HugeCase> {
         name: "load-huge",
         rule: "BootInformation::load for total-size words from 1 MiB up to 2^32-1 on a lazily mapped 4 GiB region (only the header page and the page holding the last 8 bytes are touched; each case in a forked child): enumerated 2^32-8, 2^32-1, 2^32-7, 2^32-16, 2^31 (+8, -8), 2^30, 2^28, 2^24, 2^20+8 x 4 end-tag variants; generated: random multiples of 8 and random words. Oracle as `load`. Every case is non-trivial; distinct by (size word, reserved, last 8 bytes)",
         profiles: Profiles::Both,
